@@ -86,6 +86,7 @@ engine_prop('C06', ['C06'], CARD_FIELDS, CARD_OPS)
 engine_prop('C07', ['C07'], PHASE_FIELDS | CAN_FIELDS, ALL_OPS, results=True)
 engine_prop('C08', ['C08'], CAN_FIELDS, set(), results=True)
 engine_prop('C09', ['C09'], PHASE_FIELDS | CHIP_FIELDS | CARD_FIELDS, ALL_OPS)
+engine_prop('C10', ['C10'], DEAL_FIELDS, DEAL_OPS)
 engine_prop('C12', ['C12'], SHOW_FIELDS | CHIP_FIELDS, SHOW_OPS)
 engine_prop('C15', ['C15'], set(), ALL_OPS)
 
@@ -181,6 +182,7 @@ def replay(pid: str, spec: dict, path: str) -> int:
     import impl
     import monitors
     import paired  # noqa: F401
+    import dealing  # noqa: F401
     d = json.load(open(path))
     if spec['kind'] == 'eval':
         return replay_eval(pid, d)
